@@ -287,7 +287,26 @@ MEM_ROUTES = ['bin', 'auto_bin', 'hex_or_bin', 'slice_of_longer', 'bytes_offset'
               'fromstring', 'join', 'copy', 'bytesio_offset', 'pack_bits', 'cache_hit']
 
 
+POSITIONAL_ROUTES = {'slice_of_longer'}
+
+
 def build_route(clsname, bits, route, salt=0):
+    """Routes that select bits by position are always built under msb0 (their lsb0 behaviour is C12's business), so callers
+    may run with options.lsb0 switched on."""
+    if route in POSITIONAL_ROUTES:
+        o = bitstring_module().options
+        was = o.lsb0
+        if was:
+            o.lsb0 = False
+        try:
+            return _build_route(clsname, bits, route, salt)
+        finally:
+            if was:
+                o.lsb0 = True
+    return _build_route(clsname, bits, route, salt)
+
+
+def _build_route(clsname, bits, route, salt=0):
     import bitarray as _ba
     bs = bitstring_module()
     c = cls_of(clsname)
